@@ -323,7 +323,8 @@ CommonRetLabels(e) ==
  \cup L(api.inited /\ e.kind = "uninit", "C08/outcome")
  \cup L(api.inited /\ ~e.start_valid /\ e.kind \in {"ok", "timeout", "nosolution"}, "C01/root-start")
  \cup L(api.inited /\ ~e.start_valid /\ e.kind \in {"ok", "timeout", "nosolution"}, "C08/outcome")
- \cup L(e.kind = "invalidstart" /\ e.start_valid, "C08/outcome")
+ \* (with several start states a planner must refuse when none is valid and may refuse when one is not)
+ \cup L(e.kind = "invalidstart" /\ e.start_valid_all, "C08/outcome")
  \cup (IF e.kind = "ok" THEN
           L(Len(e.path) = 0, "C02/nonempty")
      \* a stale answer: after a re-installation the path does not fit what is installed now (it does not
